@@ -87,3 +87,14 @@ Proof. exact tbase_is_recurrence. Qed.
 (* non-vacuity: sustainment 1/2, efficiency 1/2, start level 4; charge 1, discharge 1, idle *)
 Example C09_example_storage : state_rec (1/2) 4 (map (stored (1/2)) [1; -1; 0]) = [5/2; -3/4; -3/8].
 Proof. exact example_storage. Qed.
+
+(* ---- TDevice._make_t_base and TDevice.r2t regenerated from tdevice.py on every run (Gen/Thermal.v, translator/tdevice_tx.py; every
+        attribute they read is checked against __init__ and the properties) ARE the model temperatures of the theorems above ---- *)
+From DK.Gen Require Import Thermal.
+From DK.Proofs Require Import GenThermal.
+Theorem C09_source_thermal_base : forall n su ef ti to tr te c,
+  TDevice__make_t_base (A:=R) n su ef ti to tr te c te su ti = tdev_tbase (tq su ef ti to tr te c) n.
+Proof. exact gen_tdevice_tbase. Qed.
+Theorem C09_source_thermal_temperature : forall n su ef ti to tr te c (r : list R), length r = n ->
+  TDevice_r2t (A:=R) n su ef ti to tr te c r = tdev_r2t (tq su ef ti to tr te c) r.
+Proof. exact gen_tdevice_r2t. Qed.
